@@ -117,7 +117,15 @@ func drawCfg(t *rapid.T) (*cfg, suite) {
 	s := suiteByName(rapid.SampledFrom(names).Draw(t, "group"))
 	c := &cfg{}
 	c.scheme = rapid.SampledFrom([]string{schemeFeldman, schemePedersen}).Draw(t, "scheme")
-	c.pol = policy.Draw(t, policy.Opts{MaxN: 5})
+	for {
+		c.pol = policy.Draw(t, policy.Opts{MaxN: 5})
+		if everyHolderHasRows(c.pol) {
+			break
+		}
+		// a CNF policy in which some holder lies in every maximal unqualified set: that holder is
+		// in no minimal qualified set and the library gives it no MSP row, hence no share
+		vlib.Class("Generator", "redraw:holder-without-rows")
+	}
 	c.regime = rapid.SampledFrom([]string{policy.Ordinal, policy.Sparse, policy.Large}).Draw(t, "regime")
 	c.ids = policy.DrawIDs(t, c.pol, c.regime)
 	if c.pol.Family == policy.Hier && c.regime != policy.Ordinal && policy.TassaVerdict(c.pol, c.ids, s.order()) != 1 {
@@ -134,6 +142,15 @@ func drawCfg(t *rapid.T) (*cfg, suite) {
 		c.secrets = append(c.secrets, rapid.SampledFrom([]string{"rand", "rand", "dealrandom", "zero", "one", "q-1"}).Draw(t, fmt.Sprintf("secret%d", d)))
 	}
 	return c, s
+}
+
+func everyHolderHasRows(p *policy.Policy) bool {
+	for h := 0; h < p.N; h++ {
+		if p.Rows(h) == 0 {
+			return false
+		}
+	}
+	return true
 }
 
 func ordinalIDs(n int) []uint64 {
